@@ -426,12 +426,7 @@ class AsteriskToken(XPathToken):
             # Product operator
             item = self.evaluate(context)
             if not isinstance(item, list):
-                if context is not None:
-                    context.item = item
-                yield item
-            elif context is not None:
-                for context.item in item:
-                    yield context.item
+                yield item  # a product is a value: the focus of the caller's context is not moved onto it
             else:
                 yield from item
             return
